@@ -58,6 +58,7 @@ type SSHServer struct {
 	Handle   Handler
 	wg       sync.WaitGroup
 	closed   chan struct{}
+	*Freezer
 }
 
 // NewSSHServer starts a server with a fresh ed25519 host key.
@@ -74,7 +75,7 @@ func NewSSHServer(password string, authKey ssh.PublicKey, h Handler) (*SSHServer
 	if err != nil {
 		return nil, err
 	}
-	s := &SSHServer{L: l, Port: l.Addr().(*net.TCPAddr).Port, HostKey: signer, Log: &AuthLog{}, Password: password, AuthKey: authKey, Handle: h, closed: make(chan struct{})}
+	s := &SSHServer{L: l, Port: l.Addr().(*net.TCPAddr).Port, HostKey: signer, Log: &AuthLog{}, Password: password, AuthKey: authKey, Handle: h, closed: make(chan struct{}), Freezer: newFreezer()}
 	cfg := &ssh.ServerConfig{
 		PasswordCallback: func(c ssh.ConnMetadata, pw []byte) (*ssh.Permissions, error) {
 			s.Log.add(func() {
@@ -116,6 +117,7 @@ func NewSSHServer(password string, authKey ssh.PublicKey, h Handler) (*SSHServer
 }
 
 func (s *SSHServer) serve(c net.Conn, cfg *ssh.ServerConfig) {
+	c = s.wrap(c)
 	defer c.Close()
 	conn, chans, reqs, err := ssh.NewServerConn(c, cfg)
 	if err != nil {
@@ -160,6 +162,7 @@ func (s *SSHServer) serve(c net.Conn, cfg *ssh.ServerConfig) {
 
 // Close stops the server.
 func (s *SSHServer) Close() {
+	s.Thaw()
 	_ = s.L.Close()
 }
 
